@@ -80,6 +80,9 @@ def sensitivity(by_prop, argv):
         d = os.path.join(root, sid)
         with open(os.path.join(d, 'meta.json')) as f:
             meta = json.load(f)
+        if meta.get('retired'):
+            print('RETIRED %s %s' % (meta['property'], sid))
+            continue
         p = subprocess.run([sys.executable, os.path.join(VERIF, 'tools', 'mutest.py'), meta['property'],
                             os.path.join(d, 'patch.diff')], stdout=subprocess.PIPE, stderr=subprocess.STDOUT,
                            universal_newlines=True)
